@@ -179,4 +179,14 @@ CHECKS = {
         abnormal_exit_is_violation=True,
         assumptions=HARNESS_TRUST,
     ),
+    "C18": dict(
+        level="exploration",
+        rule=("part A: real master and real outstation joined by a relay with scripted one-way delays f, b (0 .. 90 000 ms), processing delay p (0 .. 65 535 ms, held honestly or not), master clock anywhere in 0 .. 2^48-1, three procedures, crossing unsolicited responses and stale wrong-sequence replies; the time handed to the outstation application is compared with the master's clock at that virtual instant; "
+              "part B: real master against a scripted outstation (excess processing delay, unexpected objects at every step, NEED_TIME kept, IIN2 rejection, 48-bit overflow); part C: real outstation against a scripted master (g50v3 = recorded + elapsed exactly, rejected without record or on overflow, g50v1, g52v2)"),
+        runs=[dict(check="c18", timeout_s=900)],
+        required=["A_accuracy_within_bound_ok", "A_accuracy_ok_proc0", "A_accuracy_ok_proc1", "A_exact_when_symmetric_ok", "A_accuracy_ok_with_processing_delay", "A_accuracy_ok_delay_beyond_16_bits", "A_failed_as_demanded_ok", "B_failed_as_demanded_ok", "B_success_on_benign_script_ok", "C_recorded_plus_elapsed_ok", "C_write_without_record_rejected_ok", "C_overflow_rejected_ok"],
+        thorough_scale=10.0,
+        abnormal_exit_is_violation=True,
+        assumptions=HARNESS_TRUST,
+    ),
 }
